@@ -289,16 +289,22 @@ def cond_inf(M):
 # --------------------------------------------------------------------------------------------
 # running the two sides
 
-def run_harness(domain, lines, timeout=3000):
-    """lines: list of 'op int int ...' strings. Returns list of list[int]. Sharded over processes."""
+def run_harness(domain, lines, timeout=3000, present=0):
+    """lines: list of 'op int int ...' strings. Returns list of list[int]. Sharded over processes.
+    present: how the harness constructs the encoded dual numbers (RL_PRESENT; harness/src/numenc.rs): 0 = try_new,
+    1 = the sibling constructor try_new_from on a rotated copy of the names (by name the same numbers)."""
     if not lines:
         return []
+    henv = env_offline()
+    if present:
+        henv = dict(henv)
+        henv["RL_PRESENT"] = str(present)
     nshard = max(1, min(NCPU, len(lines) // 200))
     shards = [lines[i::nshard] for i in range(nshard)]
 
     def one(sh_lines):
         p = subprocess.run([HARNESS_BIN, domain], input="\n".join(sh_lines) + "\n", capture_output=True,
-                           text=True, timeout=timeout, env=env_offline())
+                           text=True, timeout=timeout, env=henv)
         outl = p.stdout.split("\n")
         if outl and outl[-1] == "":
             outl.pop()
